@@ -12,7 +12,10 @@ use maybenot::constants::STATE_END;
 pub const DAY_US: u64 = 86_400_000_000;
 
 #[derive(Clone)]
-pub struct Obs;
+pub struct Obs {
+    /// machines seen in their end state at the end of some earlier call (sticky: END is absorbing)
+    ended: Vec<bool>,
+}
 
 fn matches_some_state(m: &maybenot::Machine, a: &Act) -> bool {
     m.states.iter().any(|s| match (s.action, a) {
@@ -25,8 +28,8 @@ fn matches_some_state(m: &maybenot::Machine, a: &Act) -> bool {
 }
 
 impl Observer for Obs {
-    fn init(_cfg: &Cfg, _s: &[u8], _fw: &Fw) -> Result<Self, String> {
-        Ok(Obs)
+    fn init(cfg: &Cfg, _s: &[u8], _fw: &Fw) -> Result<Self, String> {
+        Ok(Obs { ended: vec![false; cfg.machines.len()] })
     }
     fn on_call(&mut self, c: &CallCtx<'_>, stats: &mut Stats) -> Result<bool, String> {
         let n = c.cfg.machines.len();
@@ -58,8 +61,13 @@ impl Observer for Obs {
             if t == DAY_US || d == DAY_US {
                 stats.bump("actions_clamped_to_one_day");
             }
-            if c.before.machines[m].0 == STATE_END {
-                return Err(format!("machine {m} had reached its end state before this call, yet yields {a:?}"));
+            if c.before.machines[m].0 == STATE_END || self.ended[m] {
+                return Err(format!("machine {m} had reached its end state in an earlier call, yet yields {a:?}"));
+            }
+        }
+        for (m, x) in c.after.machines.iter().enumerate() {
+            if x.0 == STATE_END {
+                self.ended[m] = true;
             }
         }
         if c.before.machines.iter().any(|x| x.0 == STATE_END) {
@@ -70,7 +78,9 @@ impl Observer for Obs {
         }
         Ok(!c.actions.is_empty())
     }
-    fn key(&self, _out: &mut String) {}
+    fn key(&self, out: &mut String) {
+        out.push_str(&format!("|{:?}", self.ended));
+    }
 }
 
 pub fn plans(ctx: &WorkerCtx) -> Vec<Plan> {
@@ -92,6 +102,7 @@ pub fn plans(ctx: &WorkerCtx) -> Vec<Plan> {
     v.push(Plan { name: "one machine".into(), cfgs: fam::singles(&lib, &fr[..1]), alpha_for: af(false), opts: Opts { depth: if q { 3 } else { 5 }, ..base.clone() } });
     v.push(Plan { name: "two machines, batches of 0..2 events + long batches".into(), cfgs: fam::pairs_strided(&lib, 31, 7, &fr).into_iter().step_by(if q { 3 } else { 1 }).collect(), alpha_for: af(true), opts: Opts { depth: if q { 1 } else { 2 }, ..base.clone() } });
     v.push(Plan { name: "two machines, singles, deeper".into(), cfgs: fam::pairs_strided(&lib, 17, 5, &fr), alpha_for: af(false), opts: Opts { depth: if q { 2 } else { 4 }, ..base.clone() } });
+    v.push(Plan { name: "all ordered pairs of signal probes (a machine ends, another one signals later)".into(), cfgs: fam::all_pairs(&fam::p_sig(), &fam::p_sig(), &fr[..1]), alpha_for: af(false), opts: Opts { depth: if q { 4 } else { 5 }, ..base.clone() } });
     v.push(Plan { name: "three machines".into(), cfgs: fam::triples_strided(&lib.iter().step_by(if q { 4 } else { 1 }).cloned().collect::<Vec<_>>(), &fr), alpha_for: af(false), opts: Opts { depth: if q { 2 } else { 3 }, full_positions: 4, ..base.clone() } });
     v
 }
